@@ -221,6 +221,9 @@ class CompoundQuery(qcore.Query):
 
         if len(subs) == 1:
             m = subs[0].matcher(searcher, context)
+            # The single clause stands for the whole query, boost included
+            if self.boost != 1.0:
+                m = matching.WrappingMatcher(m, self.boost)
         else:
             m = self._matcher(subs, searcher, context)
         return m
@@ -412,7 +415,7 @@ class SplitOr(Or):
         if not subs:
             return matching.NullMatcher()
         elif len(subs) == 1:
-            return subs[0].matcher(searcher, context)
+            return CompoundQuery.matcher(self, searcher, context)
 
         # Sort the subqueries into "small" and "big" queries based on their
         # estimated size. This works best for term queries.
